@@ -20,6 +20,15 @@ func init() {
 					ts = append(ts, Task{Pkg: "aztec/decoder", Func: "VerifC11Binary", Args: ints(table, n), Note: "binary shift of n free bytes (< 0x80) from the table, short (<= 31) and long length forms, then a free character of the invoking table"})
 				}
 			}
+			// bit un-stuffing (correctBits) per codeword size, Reed-Solomon stubbed
+			rsStub := map[string]string{"common/reedsolomon.(*ReedSolomonDecoder).Decode": "aztec/decoder.verifNoRS"}
+			us := [][4]int64{{1, 1, 1, 0}, {1, 2, 2, 0}, {2, 3, 2, 4}, {3, 2, 1, 0}, {8, 3, 1, 3}, {9, 2, 2, 0}, {22, 3, 1, 7}, {23, 2, 1, 5}, {32, 3, 2, 0}}
+			if thorough {
+				us = append(us, [4]int64{1, 4, 3, 2}, [4]int64{5, 4, 2, 1}, [4]int64{12, 4, 2, 9}, [4]int64{30, 4, 1, 11})
+			}
+			for _, a := range us {
+				ts = append(ts, Task{Pkg: "aztec/decoder", Func: "VerifC11Unstuff", Args: a[:], Redirect: rsStub, Note: "layers (codeword size 6/8/10/12), free data codewords, parity codewords, leading pad bits: un-stuffing and rejection of all-0 / all-1 codewords"})
+			}
 			for k := int64(0); k <= 6; k++ {
 				ts = append(ts, Task{Pkg: "aztec/decoder", Func: "VerifC11Shift", Args: ints(k), Note: "shift/latch scripts: P/S and U/S from upper, lower, digit, mixed; chained latches; every data code free"})
 			}
@@ -32,7 +41,8 @@ func init() {
 			}
 		},
 		Exhaustive:  func(tier string) bool { return false },
-		Outside:     []string{"the whole symbol layer: bull's-eye detection, orientation, mode message, Reed-Solomon correction in GF(16)/GF(64)/GF(256)/GF(1024)/GF(4096), layer spiral read-out (extractBits), bit un-stuffing (correctBits) — no reference Aztec symbol constructor was built, so 'symbols of every size' is NOT covered", "binary-shift bytes >= 0x80 and ECI switches (FLG(n)) inside a conforming stream (C06 covers their totality)", "texts longer than three codes per table"},
+		Outside:     []string{"the whole symbol layer: bull's-eye detection, orientation, mode message, Reed-Solomon correction in GF(16)/GF(64)/GF(256)/GF(1024)/GF(4096), layer spiral read-out (extractBits) — no reference Aztec symbol constructor was built, so 'symbols of every size' is NOT covered", "binary-shift bytes >= 0x80 and ECI switches (FLG(n)) inside a conforming stream (C06 covers their totality)", "texts longer than three codes per table"},
+		Stubs:       []string{"(*reedsolomon.ReedSolomonDecoder).Decode -> no-op in the un-stuffing tasks"},
 		Assumptions: commonAssumptions,
 	}
 }
